@@ -261,6 +261,25 @@ def apply_algo(sim, spec: dict) -> None:
         sim.Solver_Set_Hyperbolic_Algorithm(spec["dt"], algo=AlgoType(a), **kw)
 
 
+def priv(obj, name: str):
+    """Value of a name-mangled attribute the property's anchors name as state.  If a refactoring renamed it the run ends
+    without a verdict (counted as a discard with this reason): an oracle that cannot see its state must not guess."""
+    from .kernel import Discard
+
+    try:
+        return getattr(obj, name)
+    except AttributeError:
+        raise Discard(f"private state attribute {name} not found on {type(obj).__name__} (renamed by a refactoring?): oracle unavailable")
+
+
+def set_priv(obj, name: str, value) -> None:
+    from .kernel import Discard
+
+    if not hasattr(obj, name):
+        raise Discard(f"private state attribute {name} not found on {type(obj).__name__} (renamed by a refactoring?): oracle unavailable")
+    setattr(obj, name, value)
+
+
 def problem_types(sim) -> list:
     return list(sim.Get_problemTypes())
 
@@ -357,14 +376,14 @@ def get_extra(sim, simtype: str) -> dict:
     """State beyond (u, v, a): committed internal variables / history field (copies)."""
     if simtype == "InElastic":
         return {
-            "zOld": {k: np.array(v) for k, v in getattr(sim, "_InElastic__zOld").items()},
-            "z": {k: np.array(v) for k, v in getattr(sim, "_InElastic__z").items()},
+            "zOld": {k: np.array(v) for k, v in priv(sim, "_InElastic__zOld").items()},
+            "z": {k: np.array(v) for k, v in priv(sim, "_InElastic__z").items()},
             "dt": sim.dt,
         }
     if simtype == "PhaseField":
         return {
-            "H": np.array(getattr(sim, "_PhaseField__old_psiP_e_pg")),
-            "psiP": np.array(getattr(sim, "_PhaseField__psiP_e_pg")),
+            "H": np.array(priv(sim, "_PhaseField__old_psiP_e_pg")),
+            "psiP": np.array(priv(sim, "_PhaseField__psiP_e_pg")),
         }
     return {}
 
@@ -373,14 +392,14 @@ def set_extra(sim, simtype: str, ex: dict) -> None:
     from EasyFEA.FEM import FeArray
 
     if simtype == "InElastic":
-        setattr(sim, "_InElastic__zOld", {k: FeArray.asfearray(v.copy()) for k, v in ex["zOld"].items()})
-        setattr(sim, "_InElastic__z", {k: FeArray.asfearray(v.copy()) for k, v in ex["z"].items()})
+        set_priv(sim, "_InElastic__zOld", {k: FeArray.asfearray(v.copy()) for k, v in ex["zOld"].items()})
+        set_priv(sim, "_InElastic__z", {k: FeArray.asfearray(v.copy()) for k, v in ex["z"].items()})
         sim.dt = ex["dt"]
     elif simtype == "PhaseField":
         H = ex["H"].copy()
-        setattr(sim, "_PhaseField__old_psiP_e_pg", FeArray.asfearray(H) if H.ndim >= 2 else H)
+        set_priv(sim, "_PhaseField__old_psiP_e_pg", FeArray.asfearray(H) if H.ndim >= 2 else H)
         P = ex["psiP"].copy()
-        setattr(sim, "_PhaseField__psiP_e_pg", FeArray.asfearray(P) if P.ndim >= 2 else P)
+        set_priv(sim, "_PhaseField__psiP_e_pg", FeArray.asfearray(P) if P.ndim >= 2 else P)
 
 
 def solve(sim, simtype: str):
